@@ -45,13 +45,23 @@ class GhostRaw:
         self.comparam_refs = []
 
 
-def GhostLayer(name, kind):
+def GhostLayer(name, kind, concrete_class=False):
     """a real HierarchyElement (DiagLayer for shared data) object - the real methods are inherited - created without
-    running the constructor, carrying only the ghost raw data"""
+    running the constructor, carrying only the ghost raw data; concrete_class: an object of the layer class of that
+    kind (Protocol, FunctionalGroup, ...), so that methods these classes override are the ones that run"""
     cls = DiagLayer if kind == "SD" else HierarchyElement
+    if concrete_class:
+        from odxtools.diaglayers.basevariant import BaseVariant
+        from odxtools.diaglayers.ecushareddata import EcuSharedData
+        from odxtools.diaglayers.ecuvariant import EcuVariant
+        from odxtools.diaglayers.functionalgroup import FunctionalGroup
+        from odxtools.diaglayers.protocol import Protocol
+        cls = {"PR": Protocol, "FG": FunctionalGroup, "BV": BaseVariant, "EV": EcuVariant, "SD": EcuSharedData}[kind]
     L = cls.__new__(cls)
     L.diag_layer_raw = GhostRaw(name, kind)
     L.kind = kind
+    if concrete_class:
+        return L  # (the concrete classes expose parent_refs as a property of the raw data)
     L.local = L.diag_layer_raw.local
     L.parent_refs = L.diag_layer_raw.parent_refs
     return L
@@ -590,6 +600,35 @@ def comparam_inheritance(shape):
     H.check("C15:every-defined-key-is-present",
             sorted([(ci.spec_ref.ref_id, str(ci.protocol_snref)) for ci in got]) ==
             sorted([(k[0], str(k[1])) for k in want]))
+
+
+@harness(props=["C15"], strength="B", family=lambda t, s: [{"shape": k} for k in ("bv-pr", "ev-bv-pr", "bv-fg+pr")],
+         bound="three hierarchy shapes; layers are objects of the layer classes (Protocol, FunctionalGroup, BaseVariant, "
+         "EcuVariant); the root-most layer's definition is replaced between two computations",
+         functions=[HierarchyElement._compute_available_commmunication_parameters], covers=["done"])
+def comparams_follow_the_raw_data(shape):
+    """the communication parameters of a layer are a function of the raw data at the time they are computed (each
+    refresh recomputes them): after a parent's definition was replaced, the layer and every layer below see the new one"""
+    layers = {}
+    for name, kind, parents in CP_SHAPES[shape]:
+        layers[name] = GhostLayer(name, kind, concrete_class=True)
+    for name, kind, parents in CP_SHAPES[shape]:
+        for p in parents:
+            layers[name].diag_layer_raw.parent_refs.append(GhostParentRef(layers[p], []))
+    spec_a = mk_spec("CP_A", "0")
+    root = layers["pr"]
+    old = mk_instance(spec_a, "ID_A", "old", None)
+    root.diag_layer_raw.comparam_refs.append(old)
+    target = layers[CP_SHAPES[shape][0][0]]
+    first = target._compute_available_commmunication_parameters()
+    H.check("C15:inherited-definition-is-visible", [ci.value for ci in first] == ["old"])
+    new = mk_instance(spec_a, "ID_A", "new", None)
+    root.diag_layer_raw.comparam_refs[:] = [new]
+    for L in (root, target):  # (a refresh recomputes the parents first)
+        again = L._compute_available_commmunication_parameters()
+        H.check("C15:after-a-change-of-the-raw-data-the-new-definition-is-the-one-seen",
+                [ci.value for ci in again] == ["new"])
+    H.cover("done")
 
 
 def _lookup_family(tier, seed):
